@@ -4,7 +4,7 @@
    IR/Flow.v); that these edge sets are the control flow of the edited listing, instruction by instruction, is decided on the
    implementation by the disassembly oracle of harness/c03.py (partial: see the manifest and DESIGN.md section 8). *)
 From Coq Require Import ZArith List Bool Arith.
-From GR Require Import Base.Result Adt.RetCache IR.State IR.Modify IR.Edit IR.Flow.
+From GR Require Import Base.Result Adt.RetCache IR.State IR.Modify IR.Edit IR.Flow IR.FindingsGen.
 Import ListNotations.
 Open Scope Z_scope.
 
@@ -80,3 +80,37 @@ Example C03_nonvacuous :
   exists nb ft s', split_block ex_state 0%nat 1 = Ok (nb, ft, s') /\
     cfg s' = [mk_edge (NB nb) (NB 1%nat) (Some (ET_BRANCH, false, true)); mk_edge' (NB 0%nat) (NB nb) ET_FALLTHROUGH].
 Proof. eexists; eexists; eexists. split; vm_compute; reflexivity. Qed.
+
+(* ===== the recorded findings, as facts about the faithful model (witnesses: IR/FindingsGen.v, generated from corpus/C03) =====
+   The property's statement "the CFG is the control flow of the edited listing" is FALSE of the model on these inputs; each was
+   replayed on the implementation (known_findings.json). *)
+Definition leaves (s : st) (b : nat) : list edge := filter (fun e => node_eqb (src e) (NB b)) (cfg s).
+
+(* C03-fallthrough-at-a-former-terminator: `nop; call L0; nop` inserted behind the ret that ends block 0: the trailing nop (block 201) is followed
+   by block 1 in its section, yet no edge leaves it *)
+Theorem C03_fallthrough_at_a_former_terminator_refuted :
+  exists s', F1.final = Some s' /\ snd (adjacent_blocks s' 201) = Some 1%nat /\ is_code s' 1 = true /\ leaves s' 201 = [].
+Proof. eexists. split; [vm_compute; reflexivity|]. repeat split; vm_compute; reflexivity. Qed.
+
+(* C03-return-edges-of-deleted-call-or-entry: the entry block of function 0 is deleted; `call L0` (block 1) now enters its own function
+   (Call edge 1 -> 1), whose ret (block 2) still returns to a proxy only and not to the call's return site, block 2 *)
+Theorem C03_return_edges_of_a_deleted_entry_refuted :
+  exists s', F2.final = Some s' /\ In (mk_edge' (NB 1) (NB 1) ET_CALL) (cfg s') /\
+    snd (adjacent_blocks s' 1) = Some 2%nat /\ leaves s' 2 = [mk_edge' (NB 2) (NP 3) ET_RETURN].
+Proof. eexists. split; [vm_compute; reflexivity|]. repeat split; vm_compute; auto. Qed.
+
+(* C03-patch-ret-behind-call-into-own-function: `nop; ret; nop` inserted behind `call L1` where block 1 is the entry of the function the
+   call sits in: the call falls through to the patch's ret block 200, every other ret of the function returns to 200, but the patch's
+   own ret returns to the old return site, block 2 *)
+Theorem C03_patch_ret_behind_a_call_into_its_own_function_refuted :
+  exists s', F3.final = Some s' /\ In (mk_edge' (NB 1) (NB 200) ET_FALLTHROUGH) (cfg s') /\
+    In (mk_edge' (NB 2) (NB 200) ET_RETURN) (cfg s') /\ In (mk_edge' (NB 3) (NB 200) ET_RETURN) (cfg s') /\
+    filter (fun e => etype_is ET_RETURN e) (leaves s' 200) = [mk_edge' (NB 200) (NB 2) ET_RETURN].
+Proof. eexists. split; [vm_compute; reflexivity|]. repeat split; vm_compute; auto 10. Qed.
+
+(* C03-call-sites-forgotten-when-every-ret-is-replaced: function 1 (blocks 4, 5, 3; entry 3) is called from block 3, whose return site is
+   block 4; its only ret (end of block 5) is replaced by `nop` and a patch `ret` is inserted behind it: the new ret returns to an unknown proxy only *)
+Theorem C03_call_sites_forgotten_when_every_ret_is_replaced_refuted :
+  exists s', F4.final = Some s' /\ In (mk_edge' (NB 3) (NB 3) ET_CALL) (cfg s') /\ In (mk_edge' (NB 3) (NB 4) ET_FALLTHROUGH) (cfg s') /\
+    In (1%nat, [4%nat; 5%nat; 3%nat]) (fblocks s') /\ leaves s' 5 = [mk_edge' (NB 5) (NP 203) ET_RETURN].
+Proof. eexists. split; [vm_compute; reflexivity|]. repeat split; vm_compute; auto 10. Qed.
